@@ -158,7 +158,7 @@ GOALS = {
     "G_ClearWithBacklog": "g_clear", "G_ClearWhileBusy": "g_clear", "G_ClearWithPending": "g_clear1",
     "G_SameBucketRewrite": "g_ttl", "G_TTLDropped": "g_ttl", "G_SweepSkip": "g_ttl", "G_SetDuringSweepDel": "g_ttl",
     "G_WaitBlockedInSend": "g_write", "G_TwoClears": "g_clear", "G_SetDuringClear": "g_clear",
-    "G_ExactFitAfterShrink": "g_fit", "G_ReAddAfterZeroSweep": "g_zero", "G_DelDuringVictims": "g_victim",
+    "G_ClearAfterGetsOnly": "g_clear1", "G_ExactFitAfterShrink": "g_fit", "G_ReAddAfterZeroSweep": "g_zero", "G_DelDuringVictims": "g_victim",
 }
 GOALS_FOR = {
     "C02": ["G_UpdateOfEvicted", "G_DroppedUpdate", "G_ClearWhileBusy", "G_DelDuringVictims", "G_SetDuringSweepDel", "G_SetDuringClear"],
@@ -171,7 +171,7 @@ GOALS_FOR = {
     "C09": ["G_RejectWithVictims", "G_TwoVictims", "G_DuplicateVictim", "G_ExactFitAfterShrink"],
     "C13": ["G_RejectWithVictims", "G_BlockedDel", "G_LateApply", "G_UpdateOfEvicted", "G_DelDuringVictims", "G_SweepSkip", "G_SetDuringClear", "G_SweepSkip1", "G_DuplicateVictim", "G_ReAddAfterZeroSweep"],
     "C14": ["G_SweepWithBuffered", "G_LateApply", "G_ExpiredUnswept", "G_SameBucketRewrite", "G_TTLDropped", "G_SweepSkip", "G_SetDuringSweepDel", "G_SweepSkip1", "G_SetDuringSweepDel1", "G_SweepWithBuffered1", "G_ReAddAfterZeroSweep"],
-    "C15": ["G_ClearWithBacklog", "G_ClearWhileBusy", "G_ExpiredUnswept", "G_ClearWithPending", "G_TwoClears", "G_SetDuringClear"],
+    "C15": ["G_ClearWithBacklog", "G_ClearWhileBusy", "G_ExpiredUnswept", "G_ClearWithPending", "G_TwoClears", "G_SetDuringClear", "G_ClearAfterGetsOnly"],
     "C17": ["G_RejectWithVictims", "G_DroppedUpdate", "G_UpdateOfEvicted", "G_ClearWhileBusy", "G_ClearWithPending", "G_SetDuringClear", "G_DuplicateVictim", "G_TwoVictims", "G_ExactFitAfterShrink"],
 }
 
